@@ -3,6 +3,7 @@ import Props.C19
 import Lemmas.Restore
 import Lemmas.RestoreB
 import Lemmas.SimOS
+import Props.C01L
 /-!
 # C01 — Rollback restores the base filesystem exactly
 
@@ -20,8 +21,11 @@ of every mutator under every fault plan (Lemmas/Track.lean, Lemmas/Ops.lean) and
 proof that `Rollback` restores from it (Lemmas/Restore.lean), all over an abstract contract
 (`Sim`, Lemmas/Sim.lean) that Lemmas/SimOS*.lean proves of the OS model.
 
-What is *not* covered by this theorem (hence `_partial`), and is decided by the `hist` stream's
-snapshot oracle instead: trees containing symlinks and the `Symlink` operation (five of the open
+Symlinks: `rollback_restores_symlink_leaves_partial` below extends the theorem to trees with
+symlinks as leaves the transaction never traverses and to the `Symlink` operation.  The nested
+(README / NewWithFS) layering: `Props.C04.rollback_restores_nested_linkfree_partial`.
+What is *not* covered by these theorems (hence `_partial`), and is decided by the `hist` stream's
+snapshot oracle instead: paths THROUGH symlinks and operations that follow a final symlink (the open
 findings live there), relative names (K-relative-name), Rename of a non-empty directory
 (K-rename-nonempty-dir), Remove/RemoveAll of the root itself, ForceBackup (C17), the HiddenFS-nested
 layering (C04).  "Rollback returns nil" is `rollback_returns_nil_linkfree_partial` below (healthy
@@ -85,6 +89,30 @@ theorem rollback_returns_nil_linkfree_partial (bk kk : Key) (hbk : PKey bk) (hkk
       (rollback (osCfg bk kk) (runOps (osCfg bk kk) (pre.foldl (runTx (osCfg bk kk)) w) ops)).2 = .ok false :=
   (txs_clean (S := osSim bk kk hbk hkk hne1 hne2 hd1 hd2) txs w hg hinfos hnf
     (fun k hk => by show (w.fs.get (kk ++ k)).map eraseMt = none; rw [hempty k hk]; rfl) hcov).2
+
+/-- T01.links  the main theorem extended to trees that contain **symlinks as leaves the
+transaction never traverses**, and to the `Symlink` operation (proof: `Lemmas/L*.lean`, a parallel
+development over the contract `LSim` with links in the views; statement, covered operations and the
+two findings made on the way: `Props/C01L.lean`).  `OSGoodL` = well-formed disk, symlinks with any
+target anywhere; `eraseV` erases directory timestamps and, for a symlink, its timestamps and mode
+bits, and shows its target as `Readlink` through the base PrefixFS reports it; `L.Op.Covered`
+(judged in the state an operation is issued in): absolute names; no proper ancestor of the cleaned
+path is a symlink; Create/OpenFile-for-write/Chmod/Chown/Chtimes/MkdirAll not on a symlink; a link
+that gets backed up must be re-creatable through the base PrefixFS (finding K-escaping-link);
+Symlink and Rename of a link only where no tracked path lies below the new name
+(K-link-over-tracked); no Remove/RemoveAll of the root, no Rename of a non-empty directory, no
+ForceBackup.  `hbl`: at the start every symlink in the backup subtree sits where the base has one
+too (e.g. an empty backup directory). -/
+theorem rollback_restores_symlink_leaves_partial (bk kk : Key) (hbk : PKey bk) (hkk : PKey kk)
+    (hne1 : bk ≠ []) (hne2 : kk ≠ []) (hd1 : ¬ bk <+: kk) (hd2 : ¬ kk <+: bk)
+    (w : World) (hg : L.OSGoodL bk kk w.fs) (hinfos : w.infos = []) (hnf : w.faults = [])
+    (hbl : ∀ k, (∃ t mt, w.fs.get (kk ++ k) = some (.link t mt)) → ∃ t mt, w.fs.get (bk ++ k) = some (.link t mt))
+    (txs : List (List Op))
+    (hcov : L.CoveredTxs (osCfg bk kk) (L.osSimL bk kk hbk hkk hne1 hne2 hd1 hd2) w txs) :
+    ∀ k, k ≠ [] →
+      ((txs.foldl (runTx (osCfg bk kk)) w).fs.get (bk ++ k)).map (L.eraseV (kp bk)) =
+        (w.fs.get (bk ++ k)).map (L.eraseV (kp bk)) :=
+  Props.C01L.rollback_restores_symlink_leaves_partial bk kk hbk hkk hne1 hne2 hd1 hd2 w hg hinfos hnf hbl txs hcov
 
 /-- non-vacuity: the hypotheses hold of an ordinary disk (`/b` with a file and a directory, backup
 root `/k`) and a history that creates, overwrites, removes, makes directories and changes metadata
